@@ -376,9 +376,10 @@ def resolveImports(sheet, target=None):
                         for r in importedSheet:
                             # check if rules present which may not be
                             # combined with media
+                            # (nor an @import which was kept, e.g. as it
+                            # could not be loaded: @media refuses it)
                             if r.type not in (r.COMMENT,
-                                              r.STYLE_RULE,
-                                              r.IMPORT_RULE):
+                                              r.STYLE_RULE):
                                 keepimport = True
                                 break
                         if keepimport:
